@@ -34,8 +34,16 @@ fn exec(sc: &Scenario) -> Report {
             ProgressDrawTarget::term_like(Box::new(term.clone()))
         };
         let multi = sc.c("multi") == 1;
+        // sibling bars above the bar under test: finished and dropped in any order during the
+        // run (dropped bars wait at the head of the MultiProgress to be reaped by a later draw)
+        let mut sibs: Vec<Option<ProgressBar>> = vec![];
         let (pb, mp) = if multi {
             let mp = MultiProgress::with_draw_target(target);
+            for k in 0..sc.c("n_sibs").min(3) {
+                let sb = mp.add(ProgressBar::with_draw_target(Some(5), ProgressDrawTarget::hidden()));
+                sb.set_style(ProgressStyle::with_template(&format!("sib{k}")).unwrap());
+                sibs.push(Some(sb.with_finish(indicatif::ProgressFinish::AndLeave)));
+            }
             let pb = mp.add(ProgressBar::with_draw_target(Some(1_000_000), ProgressDrawTarget::hidden()));
             (pb, Some(mp))
         } else {
@@ -84,6 +92,20 @@ fn exec(sc: &Scenario) -> Report {
                         let _ = mp.println(format!("mplog{i}"));
                     }
                 }),
+                "mp_clear" => call(|| {
+                    if let Some(mp) = &mp {
+                        let _ = mp.clear();
+                    }
+                }),
+                "sib_finish" => call(|| {
+                    if let Some(Some(sb)) = sibs.get(op.n0() as usize) {
+                        sb.finish();
+                    }
+                }),
+                "sib_drop" => {
+                    let sb = sibs.get_mut(op.n0() as usize).and_then(|x| x.take());
+                    call(|| drop(sb))
+                }
                 _ => Ok(()),
             };
             if let Err(p) = res {
@@ -91,10 +113,12 @@ fn exec(sc: &Scenario) -> Report {
                 break;
             }
             let painted = term.flushes() > f0;
-            let forced = matches!(op.k.as_str(), "println" | "force_draw" | "mp_println");
+            let forced = matches!(op.k.as_str(), "println" | "force_draw" | "mp_println" | "mp_clear" | "sib_finish" | "sib_drop");
+            // (finishing / dropping a sibling and clearing paint forced frames, or none at all)
+            let may_not_paint = matches!(op.k.as_str(), "mp_clear" | "sib_finish" | "sib_drop");
             let direct = matches!(op.k.as_str(), "tick" | "set_message" | "reset");
             let positional = matches!(op.k.as_str(), "inc" | "set_position");
-            if forced && !painted && !(op.k == "mp_println" && mp.is_none()) {
+            if forced && !painted && !may_not_paint && !(op.k == "mp_println" && mp.is_none()) {
                 r.violate("C05.forced_paint", format!("{at}: a forced request painted nothing"));
                 break;
             }
@@ -130,7 +154,7 @@ fn exec(sc: &Scenario) -> Report {
                 // latest position and message
                 let t = term.transcript();
                 let want = format!("{pos}|{msg}");
-                if op.k != "mp_println" && t.last().map(|s| s.as_str()) != Some(want.as_str()) {
+                if op.k != "mp_println" && !may_not_paint && t.last().map(|s| s.as_str()) != Some(want.as_str()) {
                     r.violate(
                         "C05.stale_frame",
                         format!("{at}: the painted frame shows {:?}, the latest state is {want:?}", t.last()),
@@ -227,12 +251,51 @@ fn exec(sc: &Scenario) -> Report {
     finish_report(res, out)
 }
 
+/// MultiProgress runs: sibling bars above the bar under test are finished and dropped (in any
+/// order) and the region is cleared somewhere in the history
+fn add_sibling_ops(sc: &mut Scenario, ops: &mut Vec<Op>, rng: &mut Rng) {
+    if sc.c("multi") != 1 || rng.chance(1, 2) {
+        return;
+    }
+    let n = rng.range(1, 3);
+    sc.set("n_sibs", n);
+    let mut extra: Vec<Op> = vec![];
+    for k in 0..n {
+        if rng.chance(3, 4) {
+            extra.push(Op::new("sib_finish").n(k));
+        }
+        extra.push(Op::new("sib_drop").n(k));
+    }
+    // any order of the drops (finish stays before the drop of the same bar)
+    if rng.chance(1, 2) {
+        extra.reverse();
+        let mut fixed: Vec<Op> = vec![];
+        for k in (0..n).rev() {
+            for o in extra.iter().filter(|o| o.n0() == k && o.k == "sib_finish") {
+                fixed.push(o.clone());
+            }
+            fixed.push(Op::new("sib_drop").n(k));
+        }
+        extra = fixed;
+    }
+    if rng.chance(1, 3) {
+        extra.push(Op::new("mp_clear"));
+    }
+    // sprinkle them over the second half of the history, keeping their order
+    let len = ops.len();
+    let mut at: Vec<usize> = (0..extra.len()).map(|_| len / 2 + rng.usize_below(len - len / 2 + 1)).collect();
+    at.sort();
+    for (o, i) in extra.into_iter().zip(at).rev() {
+        ops.insert(i.min(ops.len()), o);
+    }
+}
+
 impl Check for C05 {
     fn id(&self) -> &'static str {
         "C05"
     }
     fn rule_text(&self) -> String {
-        "50..400 requests (tick, set_message, reset = direct ordinary; inc/set_position = through the position bucket; println/force_draw/mp.println = forced, excluded from the law) on a target with refresh rate R uniform in 1..=255 or without limiter, standalone or as a MultiProgress target; arrival gaps from a mixture: 0, 1 ns, I±{0,1 ns,1 µs}, k*I±..., 1 ms±1 ns, sub-interval uniform, seconds, hours (I = 1e9/R ns). Laws checked on the recorded paint timestamps: (1) every window of ordinary frames satisfies count <= 20 + R*T + 1 (integer arithmetic), (2) a direct ordinary request arriving >= ceil(1e9/R) ns after the last painted frame is painted, (3) after every position update the last painted frame is younger than ceil(1e9/R) ns + 1 ms, (4) on an unlimited target admitted position updates obey burst 10 / 1 per ms and a position update >= 1 ms after the last admitted one is admitted, (5) every painted frame shows the latest position and message. Non-trivial: >= 3 frames caused by ordinary requests. Distinct = distinct scenario hash.".into()
+        "50..400 requests (tick, set_message, reset = direct ordinary; inc/set_position = through the position bucket; println/force_draw/mp.println/mp.clear and finishing + dropping sibling bars above the bar under test = forced, excluded from the law) on a target with refresh rate R uniform in 1..=255 or without limiter, standalone or as a MultiProgress target; arrival gaps from a mixture: 0, 1 ns, I±{0,1 ns,1 µs}, k*I±..., 1 ms±1 ns, sub-interval uniform, seconds, hours (I = 1e9/R ns). Laws checked on the recorded paint timestamps: (1) every window of ordinary frames satisfies count <= 20 + R*T + 1 (integer arithmetic), (2) a direct ordinary request arriving >= ceil(1e9/R) ns after the last painted frame is painted, (3) after every position update the last painted frame is younger than ceil(1e9/R) ns + 1 ms, (4) on an unlimited target admitted position updates obey burst 10 / 1 per ms and a position update >= 1 ms after the last admitted one is admitted, (5) every painted frame shows the latest position and message. Non-trivial: >= 3 frames caused by ordinary requests. Distinct = distinct scenario hash.".into()
     }
     fn assumptions(&self) -> Vec<String> {
         vec!["time is integral nanoseconds on the virtual clock; no steady ticker is installed".into()]
@@ -303,6 +366,7 @@ impl Check for C05 {
             for _ in 0..rng.range(18, 45) {
                 ops.push(Op::new("tick"));
             }
+            add_sibling_ops(&mut sc, &mut ops, rng);
             sc.threads = vec![ops];
             return sc;
         }
@@ -334,6 +398,7 @@ impl Check for C05 {
                 _ => Op::new("reset"),
             });
         }
+        add_sibling_ops(&mut sc, &mut ops, rng);
         sc.threads = vec![ops];
         sc
     }
@@ -341,6 +406,6 @@ impl Check for C05 {
         exec(sc)
     }
     fn shrink_cfg(&self) -> Vec<(&'static str, u64)> {
-        vec![("multi", 0)]
+        vec![("multi", 0), ("n_sibs", 0)]
     }
 }
